@@ -7,6 +7,7 @@ package main
 
 import (
 	"context"
+	"crypto/sha256"
 	"encoding/hex"
 	"encoding/json"
 	"errors"
@@ -118,6 +119,15 @@ func schemaFrom(v any) *schema.Schema {
 			}
 			if ad, ok := s["addl"]; ok && ad != nil {
 				b = b.AdditionalProperties(schemaFrom(ad))
+			}
+			if dr, ok := s["depreq"].(map[string]any); ok {
+				m := map[string][]string{}
+				for k, v := range dr {
+					for _, x := range v.([]any) {
+						m[k] = append(m[k], x.(string))
+					}
+				}
+				b = b.DependentRequired(m)
 			}
 			return b.Schema()
 		}
@@ -316,6 +326,21 @@ func evHandler(c map[string]any) map[string]any {
 		}
 		res["also"] = m
 	}
+	if multi, ok := c["multi"].([]any); ok {
+		outs := []any{}
+		for _, ov := range multi {
+			c2 := map[string]any{}
+			for k, v := range c {
+				c2[k] = v
+			}
+			delete(c2, "multi")
+			for k, v := range ov.(map[string]any) {
+				c2[k] = v
+			}
+			outs = append(outs, runOne(func(cc map[string]any) map[string]any { r, _, _ := evRun(cc, nil); return r }, c2))
+		}
+		res["multi"] = outs
+	}
 	if t2, ok := c["text2"].(string); ok {
 		c2 := map[string]any{}
 		for k, v := range c {
@@ -351,6 +376,8 @@ func evHandler(c map[string]any) map[string]any {
 			}
 		}
 		res["repeat_diff"] = diff
+		sum := sha256.Sum256([]byte(string(b0) + "\x00" + strings.Join(d0, "\n")))
+		res["hash"] = hex.EncodeToString(sum[:])
 		if err0 != nil {
 			res["marshal_error"] = err0.Error()
 		}
